@@ -505,7 +505,29 @@ class _Cmp:
         return None
 
 
+def _conf_ties(x) -> bool:
+    """does some list of estimates in the case hold two results of equal confidence? (the property fixes no order among equal
+    confidences; the model sorts stably, so an AP VALUE may legitimately differ from the model's there)"""
+    if isinstance(x, dict):
+        return any(_conf_ties(v) for v in x.values())
+    if isinstance(x, list):
+        cs = [e["c"] for e in x if isinstance(e, dict) and "c" in e]
+        if len(cs) != len(set(cs)):
+            return True
+        return any(_conf_ties(v) for v in x)
+    return False
+
+
 def compare(case, out, resps):
+    d = _compare(case, out, resps)
+    if d and d != "skip" and (".ap impl" in d or ".aph impl" in d or ".map" in d) and _conf_ties(case):
+        # an AP value that differs from the model's on a case with tied confidences: the order inside a tie group is not
+        # fixed by C04/C08 ("ranking results by descending confidence"); the monotonicity ORACLE still judges the two real runs
+        return "skip"
+    return d
+
+
+def _compare(case, out, resps):
     if not isinstance(out, dict) or "err" in out:
         return None  # no output of the real code to compare
     it = iter(resps)
